@@ -96,7 +96,10 @@ def gen_kwargs(rng, kind):
     if kind == "MACD":
         fast = rng.randint(2, 6)
         kw.update(fast_period=fast, slow_period=rng.randint(fast + 1, fast + 8), signal_period=rng.randint(2, 5))
-        return kw, kw["slow_period"] + kw["signal_period"]
+        need = kw["slow_period"] + kw["signal_period"]
+        if rng.random() < 0.15:  # reversed periods: MACD swaps them itself
+            kw["fast_period"], kw["slow_period"] = kw["slow_period"], kw["fast_period"]
+        return kw, need
     kw["period"] = p
     need = 2 * p + 2
     if kind == "STOCH":
